@@ -90,3 +90,9 @@ package sender
 //@ requires s != nil && s.sq != nil && !closed(s.sq)
 //@ ensures result == (sends(s.sq) == 1)
 //@ ensures sends(s.sq) <= 1
+// a refused submission is answered by the caller (aio.EnqueueSQE): the subsystem never invokes the callback here
+//@ funcvalue \.Callback$ records callback
+//@ ensures [body C12] calls("callback") == 0
+// called on the kernel loop: never waits (the only send is the non-blocking one)
+//@ site send assert false
+//@ site select assert !blocking
